@@ -4,6 +4,7 @@ import (
 	"context"
 	"errors"
 	"fmt"
+	"os"
 	"testing"
 	"time"
 
@@ -552,6 +553,66 @@ func TestC20_GsxLoop(t *testing.T) {
 				sp.Sample(fp, map[string]any{"engine": "gsx", "history": m.log})
 			}
 			sp.Class("gsx_cancel_notification_ahead_of_call")
+		}
+	})
+}
+
+// TestC20_GsxCancelUnconfirmed: go-graphsync (v0.18) never confirms the cancellation of
+// a request that was pausing when it was cancelled (its release path records "paused"
+// and forgets the pending termination), and its Cancel ignores the caller's context.
+// A requester that paused and then restarts, closes or stops runs into exactly that.
+// The transport's calls must still return, whatever context they were given.
+func TestC20_GsxCancelUnconfirmed(t *testing.T) {
+	sp := stats.For("C20")
+	sp9 := stats.For("C09")
+	rapid.Check(t, func(t *rapid.T) {
+		r := newGsRig(t)
+		defer r.gs.Release()
+		m := &gsModel{t: t, r: r, owner: map[graphsync.RequestID]*gch{}}
+		role := rapid.SampledFrom([]string{"createPull", "receivePush"}).Draw(t, "role")
+		c := &gch{role: role, other: gen.Peer(1), tid: 30}
+		c.chid = chidFor(r.self, role, c.other, c.tid)
+		m.chans = []*gch{c}
+		m.logf("channel %s %s", role, chidStr(c.chid))
+		m.opOpen(c, 0)
+		if rapid.Bool().Draw(t, "pauseFirst") {
+			m.logf("PauseChannel (the request starts pausing)")
+			_ = r.tr.PauseChannel(bg(), c.chid)
+		}
+		r.gs.SetCancelUnconfirmed(true)
+		m.logf("from now on graphsync does not confirm cancellations")
+		call := rapid.SampledFrom([]string{"restart", "close", "shutdown", "restart-then-shutdown", "close-then-shutdown"}).Draw(t, "call")
+		start := time.Now()
+		ok := within(func() {
+			switch call {
+			case "restart", "restart-then-shutdown":
+				_ = r.tr.OpenChannel(bg(), c.other, c.chid, linkOf(simpleCid(1)), strNode("sel"), stubState{chid: c.chid, received: 1}, c.openMsg(true))
+			case "close", "close-then-shutdown":
+				_ = r.tr.CloseChannel(bg(), c.chid)
+			}
+			switch call {
+			case "shutdown", "restart-then-shutdown", "close-then-shutdown":
+				_ = r.tr.Shutdown(bg())
+			}
+		})
+		m.logf("%s with a context that never ends returned=%v after %s", call, ok, time.Since(start).Round(time.Millisecond))
+		if !ok {
+			key := "C20/call-waits-for-unconfirmed-graphsync-cancel"
+			if os.Getenv("VERIF_PROP") == "C09" {
+				key = "C09/close-waits-for-unconfirmed-graphsync-cancel"
+			}
+			m.fail(key, "%s did not return within %s: it waits, with a context that never ends, for a cancel confirmation that graphsync never gives", call, watchdog)
+		}
+		sp.Eval()
+		sp.Nontrivial(stats.FP("unconfirmed", role, call))
+		sp.Class("gsx_cancel_never_confirmed")
+		if os.Getenv("VERIF_PROP") == "C09" {
+			sp9.Eval()
+			sp9.Nontrivial(stats.FP("unconfirmed", role, call))
+			sp9.Class("gsx_close_with_unconfirmed_cancel")
+		}
+		if sp.WantSample() {
+			sp.Sample(stats.FP("unconfirmed", role, call), map[string]any{"engine": "gsx", "history": m.log})
 		}
 	})
 }
